@@ -6,7 +6,8 @@ src/dtaidistance/dtw.py (Python `ast`) and emits lean/Dtaiverif/Generated/PyBand
   * distance():                 every assignment to `length`, `skip`, `j_start`, `j_end` (with the condition of the `if`
                                 that encloses it, if any) and every integer subscript applied to the rolling buffer `dtw`;
   * warping_paths():            every assignment to `j_start`, `j_end`;
-  * warping_paths_affinity():   every assignment to `j_start`, `j_end`.
+  * warping_paths_affinity():   every assignment to `j_start`, `j_end`;
+  * lb_keogh():                 every assignment to `imin_diff`, `imax_diff`, `imin`, `imax`.
 
 Props/PyBand.lean proves that these functions are the band of the model (`Grid.jStart`, `Grid.jEnd`,
 `AffGrid.jStart`, …) and that every subscript of the rolling buffer stays inside the row it addresses, so a change of
@@ -24,10 +25,12 @@ SRC = os.path.join(REPO, "src", "dtaidistance", "dtw.py")
 OUT = os.path.join(os.path.dirname(os.path.dirname(os.path.abspath(__file__))), "lean", "Dtaiverif", "Generated",
                    "PyBand.lean")
 FIELDS = ["i", "j", "r", "c", "window", "sc", "j_start", "j_end", "skip", "skipp", "length", "i0", "i1", "ii",
-          "psi_1b", "psi_1e", "psi_2b", "psi_2e", "only_triu", "ic"]
+          "psi_1b", "psi_1e", "psi_2b", "psi_2e", "only_triu", "ic",
+          "imin_diff", "imax_diff", "imin", "imax"]
 TARGETS = {"distance": ["length", "skip", "j_start", "j_end", "ic"],
            "warping_paths": ["j_start", "j_end"],
-           "warping_paths_affinity": ["j_start", "j_end"]}
+           "warping_paths_affinity": ["j_start", "j_end"],
+           "lb_keogh": ["imin_diff", "imax_diff", "imin", "imax"]}
 
 
 class Unsupported(Exception):
